@@ -83,6 +83,10 @@ def run (m : Sim) : Sim × StepRes :=
 def crash (m : Sim) (i : Nat) : Sim :=
   { m with sws := m.sws.mapIdx (fun j s => if j == i then { s with running := false } else s) }
 
+/-- `Sim::bounce`: the host's software is started afresh on a new runtime. -/
+def bounce (m : Sim) (i : Nat) : Sim :=
+  { m with sws := m.sws.mapIdx (fun j s => if j == i then { s with running := true, regStep := m.steps } else s) }
+
 def register (m : Sim) (s : Sw) : Sim := { m with sws := m.sws ++ [{ s with regStep := m.steps }] }
 
 end TV.Run
